@@ -18,7 +18,8 @@ CfgClasses == {"none", "valid", "validempty", "invalid", "emptyjson"}   \* Confi
 LayerClasses == {"nil", "empty", "one", "many"}
 AnnClasses == {"none", "nocreated", "created", "badcreated"}
 \* "file": a file store, the manifest is given a name (title annotation) so that the store keeps it under that name
-Targets == {"memory", "prefilled", "oci", "pusheronly", "file"}
+\* "faultblob": every push of a blob that is not a manifest fails (the config or placeholder blob a packer invents)
+Targets == {"memory", "prefilled", "oci", "pusheronly", "file", "faultblob"}
 
 CaseSpace == [ver : Versions, at : AtClasses, cfg : CfgClasses, cfgann : BOOLEAN, layers : LayerClasses,
               subject : BOOLEAN, ann : AnnClasses, target : Targets]
